@@ -27,11 +27,6 @@ def rowOut (r : Row) : String :=
   intOut (r.get "fingerprint") ++ ":" ++ labelsOut (r.get "labels") ++ ":" ++ strOut (r.get "string") ++ ":" ++
     intOut (r.get "timestamp_ns")
 
-def jh? (s : String) : Option ((Bytes × List JArg) × Bool) :=
-  match s.splitOn ":" with
-  | [l, p, v] => do some ((← ofHex l, ← path? p), v = "1")
-  | _ => none
-
 def rows (args : List String) : Option String := do
   let (c, rest) ← ctx? args
   match rest with
